@@ -65,6 +65,11 @@ func (p *Prog) wireKindOf(t types.Type) string {
 			// width() = dry run of an encoder with a divisive loop
 			if enc := p.findVBIEncoder(); enc != nil && enc.fn.Signature.Recv() != nil && types.Identical(enc.fn.Signature.Recv().Type(), nt) {
 				kind = "vbi"
+			} else if bt, ok := nt.Underlying().(*types.Basic); ok && bt.Info()&types.IsUnsigned != 0 {
+				// an unsigned integer whose encoder loops: a data-dependent number of bytes (the loop itself is C15's subject)
+				if f := p.Method(nt.Obj().Name(), "fill"); f != nil && len(AllLoops(f)) > 0 {
+					kind = "vbi"
+				}
 			}
 		}
 	}
